@@ -10,6 +10,7 @@ for the piecewise constant / piecewise linear ones the rules of DESIGN section 4
 itself (exactly).
 """
 import functools
+import math
 
 import numpy as np
 import scipy.special
@@ -27,6 +28,7 @@ from .. import gen
 PID = 'C16'
 KF_ERF0 = 'KF-nthderiv-erf-at-zero'
 KF_HYPERU = 'KF-nthderiv-hyperu-integer-b-nan'
+KF_INTARG = 'KF-nthderiv-integer-argument'
 DPS = 45
 
 RULE = ('one bucket per name exported by algopy.nthderiv (enumerated at run time); a case = (function, order n, extra '
@@ -250,16 +252,34 @@ def covered(name):
 # the oracle
 # ---------------------------------------------------------------------------
 
+# functions whose only finite real singularity is x = 0: the differentiation step must be relative for tiny |x|
+ZERO_SING = {'log', 'log2', 'log10', 'sqrt', 'reciprocal', 'gammaln', 'psi', 'polygamma', 'hyperu'}
+# closed forms that are pure products (no additive O(1) terms): the result must be accurate RELATIVE to its own
+# magnitude, however small (no floor 1 in the error scale); this is what makes a lost tiny/huge result visible
+RELATIVE = {'log', 'log2', 'log10', 'sqrt', 'reciprocal', 'exp', 'exp2', 'square', 'negative'}
+
+
 @functools.lru_cache(maxsize=None)
 def _ref(name, extras, x, n):
     """n-th derivative of the reference function at the binary64 point x, as mpf (45 digits)"""
     old = mp.dps
     mp.dps = DPS
     try:
+        base = mp.prec
         f = SMOOTH[name]['mp'](*extras)
+        mag = 0 if x == 0 else math.frexp(abs(x))[1]
         try:
-            v = mpmath.diff(f, mpf(x), n) if n else f(mpf(x))
-        except (ValueError, ZeroDivisionError, mpmath.libmp.NoConvergence):
+            if abs(mag) <= 12 or n == 0:
+                if mag > 12:
+                    mp.prec = base + mag + 16
+                v = mpmath.diff(f, mpf(x), n) if n else f(mpf(x))
+            else:
+                # extreme magnitude: enough bits to resolve x +- k h, and a step relative to the distance from the
+                # singularity at 0 for tiny |x|
+                mp.prec = base + max(0, mag) + 16
+                hexp = -base - 10 + (mag if (name in ZERO_SING and mag < 0) else 0)
+                v = mpmath.diff(f, mpf(x), n, h=mpmath.ldexp(mpf(1), hexp))
+        except (ValueError, ZeroDivisionError, OverflowError, mpmath.libmp.NoConvergence):
             return None          # the oracle cannot decide -> the case is counted as inconclusive
         if isinstance(v, mpmath.mpc):
             if v.imag != 0:
@@ -274,14 +294,41 @@ def _elements(x):
     return [float(v) for v in np.asarray(x, dtype=float).ravel()]
 
 
-def _call(name, extras, x, n, use_out):
+OUT_MODES = ('none', 'fresh', 'recycled', 'self', 'view', 'complex', 'longdouble')
+
+
+def _out_mode(case):
+    o = case.get('out')
+    if o is True:
+        return 'fresh'
+    if not o:
+        return 'none'
+    return o
+
+
+def _call(name, extras, x, n, mode):
+    """returns (returned object, out buffer or None, the argument object actually passed, aliased?)"""
     f = _fn(name)
-    args = list(extras) + [x]
-    if use_out:
+    xin = x.copy() if isinstance(x, np.ndarray) else x
+    if mode == 'none':
+        return guard(f, *(list(extras) + [xin]), n=n), None, xin, False
+    aliased = False
+    if mode == 'fresh':
         out = np.full(np.shape(x), np.nan)
-        ret = guard(f, *args, out=out, n=n)
-        return ret, out
-    return guard(f, *args, n=n), None
+    elif mode == 'recycled':
+        out = np.full(np.shape(x), 7.25)          # a buffer that still holds other (non-zero) data
+    elif mode == 'complex':
+        out = np.full(np.shape(x), 7.25 - 3j, dtype=complex)
+    elif mode == 'longdouble':
+        out = np.full(np.shape(x), 7.25, dtype=np.longdouble)
+    elif mode == 'self':
+        out, aliased = xin, True
+    elif mode == 'view':
+        out, aliased = xin[...], True
+    else:
+        raise KeyError(mode)
+    ret = guard(f, *(list(extras) + [xin]), out=out, n=n)
+    return ret, out, xin, aliased
 
 
 def _as_real_array(v, what):
@@ -291,19 +338,25 @@ def _as_real_array(v, what):
     return a
 
 
-def _scale(name, extras, v, n, ref):
+def _scale(name, extras, v, n, ref, floor=1.0):
     """error scale of one element: the magnitude of the result, or of its change under a relative perturbation of
     the argument (|x f^(n+1)(x)|: conditioning of the mathematical problem; it dominates where factorially large
-    pole terms cancel, e.g. odd orders of psi at negative half-integers, arctan^(16) at x = 1), at least 1"""
+    pole terms cancel, e.g. odd orders of psi at negative half-integers, arctan^(16) at x = 1), at least ``floor``"""
     nxt = _ref(name, extras, v, n + 1)
     if ref is None or nxt is None or not mpmath.isfinite(ref) or not mpmath.isfinite(nxt):
         raise Inconclusive('non-finite reference')
-    return max(1.0, float(abs(ref)), abs(v) * float(abs(nxt)))
+    try:
+        sc = max(floor, float(abs(ref)), float(abs(mpf(v) * nxt)))
+    except OverflowError:
+        raise Inconclusive('reference outside the double range')
+    if not np.isfinite(sc):
+        raise Inconclusive('reference outside the double range')
+    return sc if sc > 0 else 1.0
 
 
-def _check_values(what, got, refs, scale_fn, shape, tol, stats):
+def _check_values(what, got, refs, scale_fn, shape, tol, stats, floor=1.0):
     """got: returned object; refs: list of mpf per element (row-major); scale_fn(k): conditioning-aware scale of
-    element k (needs the reference of order n+1: only evaluated when the plain test against max(1, |ref|) fails)"""
+    element k (needs the reference of order n+1: only evaluated when the plain test against max(floor, |ref|) fails)"""
     a = _as_real_array(got, what)
     if a.shape != tuple(shape):
         raise Violation('%s: result has shape %s, argument has shape %s' % (what, a.shape, tuple(shape)))
@@ -311,21 +364,24 @@ def _check_values(what, got, refs, scale_fn, shape, tol, stats):
     for k, ref in enumerate(refs):
         if ref is None or not mpmath.isfinite(ref):
             raise Inconclusive('non-finite reference')
+        aref = abs(ref)
+        if aref != 0 and not (mpf('1e-300') < aref < mpf('1e300')):
+            raise Inconclusive('reference outside the range of normal doubles')
         g = flat[k]
-        gi = complex(g).imag
+        gi = float(complex(g).imag)
         gr = float(complex(g).real)
         if not np.isfinite(gr) or not np.isfinite(gi):
             raise Violation('%s: element %d is %r, reference %s' % (what, k, g, mpmath.nstr(ref, 17)))
         abs_err = max(float(abs(mpf(gr) - ref)), abs(gi))
-        scale = max(1.0, float(abs(ref)))
+        scale = max(floor, float(aref))
         if abs_err > 1e-3 * tol * scale:
             # noticeable error: measure it in the conditioning-aware scale (costs the reference of order n + 1)
             scale = scale_fn(k)
-        err = abs_err / scale
-        stats.err(err)
+        err = abs_err / scale if scale > 0 else (0.0 if abs_err == 0 else float('inf'))
+        stats.err(min(err, 1e300))
         if err > tol:
-            raise Violation('%s: element %d is %r, reference %s (error %.2e relative to %.3e = max(1, |ref|, |x f^(n+1)(x)|), tol %.0e)'
-                            % (what, k, g, mpmath.nstr(ref, 17), err, scale, tol))
+            raise Violation('%s: element %d is %r, reference %s (error %.2e relative to %.3e = max(%g, |ref|, |x f^(n+1)(x)|), tol %.0e)'
+                            % (what, k, g, mpmath.nstr(ref, 17), err, scale, floor, tol))
 
 
 def _same(a, b):
@@ -336,10 +392,18 @@ def _same(a, b):
 
 def _what(case):
     x = case['x']
-    xs = repr(x.tolist()) if isinstance(x, np.ndarray) else repr(float(x))
+    if isinstance(x, np.ndarray):
+        xs = 'array(%r%s)' % (x.tolist(), '' if x.dtype == np.float64 else ', dtype=%s' % x.dtype)
+    elif isinstance(x, np.generic) and not isinstance(x, np.float64):
+        xs = 'numpy.%s(%r)' % (x.dtype, x.item())
+    else:
+        xs = repr(x if isinstance(x, int) else float(x))
     ex = ''.join('%r, ' % (e,) for e in case['extras'])
-    return 'nthderiv.%s(%s%s%s, n=%d)' % (case['f'], ex, ('array(%s)' % xs) if isinstance(x, np.ndarray) else xs,
-                                          ', out=..' if case['out'] else '', case['n'])
+    mode = _out_mode(case)
+    outs = {'none': '', 'fresh': ', out=<new float64 buffer>', 'recycled': ', out=<float64 buffer holding old data>',
+            'self': ', out=x', 'view': ', out=x[...]', 'complex': ', out=<complex128 buffer>',
+            'longdouble': ', out=<longdouble buffer>'}[mode]
+    return 'nthderiv.%s(%s%s%s, n=%d)' % (case['f'], ex, xs, outs, case['n'])
 
 
 def _note_steering(case, stats):
@@ -356,37 +420,89 @@ def prop_smooth(case, stats):
         raise
 
 
+def _snapshot(obj):
+    a = np.asarray(obj)
+    return a.dtype.str, a.shape, a.tobytes()
+
+
+def _is_int_form(x):
+    return isinstance(x, (int, np.integer)) or (isinstance(x, np.ndarray) and x.dtype.kind in 'iu')
+
+
+def _is_f32(x):
+    return isinstance(x, np.float32) or (isinstance(x, np.ndarray) and x.dtype == np.float32)
+
+
+def _check_memory(what, ret, xin, x, aliased, mode):
+    """the argument is left alone (unless out aliases it) and a fresh result does not share memory with it"""
+    if isinstance(x, np.ndarray):
+        if not aliased and (xin.dtype != x.dtype or xin.tobytes() != x.tobytes()):
+            raise Violation('%s: the argument array was modified: %r -> %r' % (what, x.tolist(), xin.tolist()))
+        if mode == 'none' and isinstance(ret, np.ndarray) and np.shares_memory(ret, xin):
+            raise Violation('%s: the returned array shares memory with the argument' % what)
+
+
 def _prop_smooth(case, stats):
     name, n, x = case['f'], int(case['n']), case['x']
     extras = tuple(case['extras'])
     spec = SMOOTH[name]
     what = _what(case)
+    mode = _out_mode(case)
     _note_steering(case, stats)
     f = _fn(name)
     if not np.all(f.domain(x)):
         raise RuntimeError('generator produced a point outside the declared domain: %s' % what)
+    tol = max(spec['tol'], 2e-4) if _is_f32(x) else spec['tol']
+    floor = 0.0 if (name in RELATIVE and not (name == 'reciprocal' and n == 0 and _is_int_form(x))) else 1.0
     cross = case.get('cross')
     sib_ret = None
     if cross and cross['first']:
-        sib_ret = guard(_fn(cross['f']), x, n=n)
-    ret, out = _call(name, extras, x, n, case['out'])
+        sib_ret = guard(_fn(cross['f']), x.copy() if isinstance(x, np.ndarray) else x, n=n)
+    ret, out, xin, aliased = _call(name, extras, x, n, mode)
+    held = [(what, ret, _snapshot(ret))]
     if cross and not cross['first']:
-        sib_ret = guard(_fn(cross['f']), x, n=n)
+        sib_ret = guard(_fn(cross['f']), x.copy() if isinstance(x, np.ndarray) else x, n=n)
+    _check_memory(what, ret, xin, x, aliased, mode)
+    # a sequence of further calls on an argument of the same shape; every result is kept (uncopied) by the caller
+    seq_rets = []
+    for fname, n2 in case.get('seq') or []:
+        xs = x.copy() if isinstance(x, np.ndarray) else x
+        ex2 = extras if fname == name else ()
+        r2 = guard(_fn(fname), *(list(ex2) + [xs]), n=n2)
+        lbl = 'nthderiv.%s(x, n=%d) called after %s' % (fname, n2, what)
+        held.append((lbl, r2, _snapshot(r2)))
+        seq_rets.append((fname, ex2, int(n2), lbl, r2))
+    for lbl, obj, snap in held:
+        if _snapshot(obj) != snap:
+            raise Violation('%s: the array returned by this call was changed by a later call of the module '
+                            '(now %r)' % (lbl, np.asarray(obj).tolist()))
     with mp.workdps(DPS):
         els = _elements(x)
-        refs = [_ref(name, extras, v, n) for v in els]
-        def scale_fn(k):
-            return _scale(name, extras, els[k], n, refs[k])
-        _check_values(what, ret, refs, scale_fn, np.shape(x), spec['tol'], stats)
-        if out is not None:
-            _check_values(what + ' [contents of out]', out, refs, scale_fn, np.shape(x), spec['tol'], stats)
+        skip_mp = (name == 'reciprocal' and n == 0 and _is_int_form(x))   # NumPy's integer reciprocal: order 0 only vs NumPy
+        if not skip_mp:
+            refs = [_ref(name, extras, v, n) for v in els]
+            def scale_fn(k):
+                return _scale(name, extras, els[k], n, refs[k], floor)
+            _check_values(what, ret, refs, scale_fn, np.shape(x), tol, stats, floor)
+            if out is not None:
+                _check_values(what + ' [contents of out]', out, refs, scale_fn, np.shape(x), tol, stats, floor)
         if cross:
             sname = cross['f']
+            sfloor = 0.0 if sname in RELATIVE else 1.0
             srefs = [_ref(sname, (), v, n) for v in els]
             def sscale_fn(k):
-                return _scale(sname, (), els[k], n, srefs[k])
+                return _scale(sname, (), els[k], n, srefs[k], sfloor)
             swhat = 'nthderiv.%s(x, n=%d) evaluated %s %s' % (sname, n, 'before' if cross['first'] else 'after', what)
-            _check_values(swhat, sib_ret, srefs, sscale_fn, np.shape(x), SMOOTH[sname]['tol'], stats)
+            _check_values(swhat, sib_ret, srefs, sscale_fn, np.shape(x), max(SMOOTH[sname]['tol'], tol), stats, sfloor)
+        if not spec['slow']:
+            for fname, ex2, n2, lbl, r2 in seq_rets:
+                if fname == 'reciprocal' and n2 == 0 and _is_int_form(x):
+                    continue          # NumPy's integer reciprocal
+                fl2 = 0.0 if fname in RELATIVE else 1.0
+                refs2 = [_ref(fname, ex2, v, n2) for v in els]
+                def scale2(k, fname=fname, ex2=ex2, n2=n2, refs2=refs2, fl2=fl2):
+                    return _scale(fname, ex2, els[k], n2, refs2[k], fl2)
+                _check_values(lbl, r2, refs2, scale2, np.shape(x), max(SMOOTH[fname]['tol'], tol), stats, fl2)
     if n == 0:
         # order 0 is the function itself
         direct = spec['np'](*extras)(x)
@@ -399,12 +515,13 @@ def prop_piecewise(case, stats):
     extras = tuple(case['extras'])
     what = _what(case)
     xa = np.asarray(x, dtype=float)
+    # order 0 is NumPy's function applied to the argument as it is (same type); the higher orders follow the rule
     if name == 'clip':
         lo, hi = extras
-        f0 = np.clip(xa, lo, hi)
+        f0 = np.asarray(np.clip(x, lo, hi))
         d1 = ((xa > lo) & (xa < hi)).astype(float)
     else:
-        f0 = PIECEWISE[name][0](xa)
+        f0 = np.asarray(PIECEWISE[name][0](x))
         d1 = np.sign(xa) if name == 'absolute' else np.zeros_like(xa)
     if n == 0:
         ref = f0
@@ -412,7 +529,18 @@ def prop_piecewise(case, stats):
         ref = d1
     else:
         ref = np.zeros_like(xa)
-    ret, out = _call(name, extras, x, n, case['out'])
+    mode = _out_mode(case)
+    ret, out, xin, aliased = _call(name, extras, x, n, mode)
+    _check_memory(what, ret, xin, x, aliased, mode)
+    held = [(what, ret, _snapshot(ret))]
+    for fname, n2 in case.get('seq') or []:
+        xs = x.copy() if isinstance(x, np.ndarray) else x
+        r2 = guard(_fn(fname), *(list(extras if fname == name else ()) + [xs]), n=n2)
+        held.append(('nthderiv.%s(x, n=%d) called after %s' % (fname, n2, what), r2, _snapshot(r2)))
+    for lbl, obj, snap in held:
+        if _snapshot(obj) != snap:
+            raise Violation('%s: the array returned by this call was changed by a later call of the module '
+                            '(now %r)' % (lbl, np.asarray(obj).tolist()))
     for label, got in ((what, ret), (what + ' [contents of out]', out)):
         if got is None:
             continue
@@ -446,6 +574,9 @@ def prop_filled(case, stats):
 # ---------------------------------------------------------------------------
 
 FORMS = ['pyfloat', 'np64', 'arr0', 'arr1', 'arr1', 'arr2']
+INT_FORMS = ['pyint', 'npint64', 'npint32', 'intarr64', 'intarr32', 'intarr64', 'intarr32']
+F32_FORMS = ['npf32', 'f32arr', 'f32arr']
+ARRAY_FORMS = ('arr0', 'arr1', 'arr2', 'intarr64', 'intarr32', 'f32arr')
 
 
 def _build(form, vals, shape):
@@ -455,19 +586,112 @@ def _build(form, vals, shape):
         return np.float64(vals[0])
     if form == 'arr0':
         return np.array(float(vals[0]))
-    return np.array(vals, dtype=float).reshape(shape)
+    if form == 'pyint':
+        return int(vals[0])
+    if form == 'npint64':
+        return np.int64(vals[0])
+    if form == 'npint32':
+        return np.int32(vals[0])
+    if form == 'npf32':
+        return np.float32(vals[0])
+    dt = {'intarr64': np.int64, 'intarr32': np.int32, 'f32arr': np.float32}.get(form, np.float64)
+    return np.array(vals, dtype=dt).reshape(shape)
 
 
 @st.composite
-def _form_and_shape(draw, maxel):
-    form = draw(st.sampled_from(FORMS))
-    if form == 'arr1':
-        shape = (draw(st.integers(1, maxel)),)
+def _form_and_shape(draw, maxel, forms=None):
+    form = draw(st.sampled_from(forms or FORMS))
+    if form in ('arr1', 'intarr64', 'intarr32', 'f32arr'):
+        if draw(st.integers(0, 3)) == 0 and maxel >= 2:
+            shape = draw(st.sampled_from([s for s in [(2, 2), (1, 2), (2, 1), (1, 3), (1, 1)] if s[0] * s[1] <= max(maxel, 2)]))
+        else:
+            shape = (draw(st.integers(1, maxel)),)
     elif form == 'arr2':
         shape = draw(st.sampled_from([s for s in [(2, 2), (1, 2), (2, 1), (1, 3), (1, 1)] if s[0] * s[1] <= max(maxel, 2)]))
     else:
         shape = ()
     return form, shape
+
+
+def _out_modes_for(form):
+    """out= forms admissible for an argument form: aliasing needs a float64 ndarray argument"""
+    modes = ['none', 'none', 'fresh', 'recycled', 'complex', 'longdouble']
+    if form in ('arr0', 'arr1', 'arr2'):
+        modes += ['self', 'view', 'self', 'view']
+    return modes
+
+
+# ---- integer-typed points of the declared domains -------------------------------------------------------------
+BIG_INTS = {'log': [50, 100, 1000], 'log2': [50, 100, 1000], 'log10': [50, 100, 1000], 'sqrt': [50, 100, 1000],
+            'reciprocal': [50, -100, 1000], 'square': [1000, -100], 'negative': [1000, -100], 'arctan': [100, -1000],
+            'arcsinh': [100, -1000], 'arccosh': [100, 1000], 'log1p': [100, 1000], 'sin': [100, -1000], 'cos': [100, -1000]}
+# functions that raise for integer-typed arguments at n >= 1 (open known finding KF_INTARG): steered to the float form
+INT_RAISES = {'erf', 'erfi', 'log', 'log2', 'log10', 'log1p', 'reciprocal', 'arctanh'}
+
+
+def _int_points(name, ivs):
+    pts = [k for k in range(-6, 21) if _inside(ivs, float(k))]
+    return pts + BIG_INTS.get(name, [])
+
+
+# ---- points of extreme magnitude ---------------------------------------------------------------------------------
+def _lgf(k):
+    return math.lgamma(k + 1) / math.log(10)
+
+
+# name -> (signs, Lmin, Lmax, exponent p(n) of the growth of f^(n) for x -> 0 or None, exponent for x -> inf or None)
+def _wide_spec(name, extras):
+    m = extras[0] if name == 'polygamma' else 0
+    table = {
+        'log': ('+', -40, 45, lambda n: n, lambda n: n), 'log2': ('+', -40, 45, lambda n: n, lambda n: n),
+        'log10': ('+', -40, 45, lambda n: n, lambda n: n),
+        'sqrt': ('+', -40, 45, lambda n: n - 0.5, lambda n: n - 0.5),
+        'reciprocal': ('+-', -40, 45, lambda n: n + 1, lambda n: n + 1),
+        'square': ('+-', -40, 45, None, None), 'negative': ('+-', -40, 45, None, None),
+        'exp': ('+-', -40, math.log10(600), None, None), 'expm1': ('+-', -40, math.log10(600), None, None),
+        'sinh': ('+-', -40, math.log10(600), None, None), 'cosh': ('+-', -40, math.log10(600), None, None),
+        'exp2': ('+-', -40, math.log10(900), None, None),
+        'erf': ('+-', -40, math.log10(24), None, None), 'erfi': ('+-', -40, math.log10(24), None, None),
+        'sin': ('+-', -40, 45, None, None), 'cos': ('+-', -40, 45, None, None),
+        'arctan': ('+-', -40, 45, None, lambda n: n), 'arcsinh': ('+-', -40, 45, None, lambda n: n),
+        'arccosh': ('+', 0.05, 45, None, lambda n: n), 'log1p': ('+', -40, 45, None, lambda n: n),
+        'arcsin': ('+-', -40, -2, None, None), 'arccos': ('+-', -40, -2, None, None), 'arctanh': ('+-', -40, -2, None, None),
+        'gammaln': ('+', -30, 30, lambda n: n, lambda n: max(n - 1, 0)),
+        'psi': ('+', -30, 30, lambda n: n + 1, lambda n: n),
+        'polygamma': ('+', -30, 30, lambda n: m + n + 1, lambda n: m + n),
+    }
+    return table.get(name)
+
+
+def _wide_range(name, extras, n):
+    """range of log10|x| in which f^(n)(x) stays a normal double (estimated from the growth exponents; the reference of
+    order n+1 that the conditioning scale may need is handled in mpf arithmetic, whose exponent range is unbounded)"""
+    spec = _wide_spec(name, extras)
+    if spec is None:
+        return None
+    signs, lmin, lmax, psmall, plarge = spec
+    mm = extras[0] if name == 'polygamma' else 0
+    if psmall is not None and psmall(n) > 0:
+        lmin = max(lmin, -(303.0 - _lgf(n + mm)) / psmall(n))
+    if plarge is not None and plarge(n) > 0:
+        lmax = min(lmax, 298.0 / plarge(n))
+    if lmin >= lmax:
+        return None
+    return signs, lmin, lmax
+
+
+@st.composite
+def _wide_point(draw, name, extras, n):
+    r = _wide_range(name, extras, n)
+    if r is None:
+        return None
+    signs, lmin, lmax = r
+    w = min(1.0, 0.5 * (lmax - lmin))
+    L = draw(st.one_of(gen.nice_floats(lmin, lmax), gen.nice_floats(lmax - w, lmax), gen.nice_floats(lmin, lmin + w)))
+    v = 10.0 ** L
+    if signs == '+-' and draw(st.booleans()):
+        v = -v
+    return v
 
 
 def _point(ivs, specials):
@@ -498,16 +722,41 @@ def smooth_cases(draw, name, tier):
         extras = [draw(st.one_of(st.sampled_from(HYPERU_A), st.sampled_from(HYPERU_A_NEG))), draw(st.sampled_from(HYPERU_B))]
     else:
         extras = []
-    form, shape = draw(_form_and_shape(spec['maxel']))
-    cnt = int(np.prod(shape, dtype=int))
-    pt = _point(ivs, specials)
-    vals = [draw(pt) for _ in range(cnt)]
     steered = {}
+    # kind of argument: float64 in the usual range (most cases), float64 of extreme magnitude, integer typed, float32
+    kind = draw(st.sampled_from(['f64'] * 6 + ['wide', 'wide', 'int', 'int', 'f32']))
+    int_pts = _int_points(name, ivs)
+    if kind == 'int' and not int_pts:
+        kind = 'f64'
+    if kind == 'f32' and n > 4:
+        n = draw(st.integers(0, 4))
+    if kind == 'wide' and _wide_range(name, extras, n) is None:
+        kind = 'f64'
+    if kind == 'int':
+        form, shape = draw(_form_and_shape(spec['maxel'], INT_FORMS))
+        if name in INT_RAISES and n >= 1 and KF.is_open(KF_INTARG) and not (name == 'arctanh' and form == 'pyint'):
+            # open known finding: these closed forms raise for integer-typed arguments; use the float form of the point
+            form = {'pyint': 'pyfloat', 'npint64': 'np64', 'npint32': 'np64', 'intarr64': 'arr1', 'intarr32': 'arr1'}[form]
+            if len(shape) == 2:
+                form = 'arr2'
+            steered[KF_INTARG] = 1
+        pt = st.sampled_from(int_pts).map(float)
+    elif kind == 'f32':
+        form, shape = draw(_form_and_shape(spec['maxel'], F32_FORMS))
+        pt = _point(ivs, specials).map(lambda v: float(np.float32(v))).filter(lambda v: _inside(ivs, v))
+    else:
+        form, shape = draw(_form_and_shape(spec['maxel']))
+        pt = _point(ivs, specials)
+    cnt = int(np.prod(shape, dtype=int))
+    if kind == 'wide':
+        vals = [draw(_wide_point(name, extras, n)) for _ in range(cnt)]
+    else:
+        vals = [draw(pt) for _ in range(cnt)]
     if name in ('erf', 'erfi') and n >= 2 and KF.is_open(KF_ERF0):
         # open known finding: NaN at exactly x == 0 for n >= 2; steer around exactly that point
         for k, v in enumerate(vals):
             if v == 0.0:
-                vals[k] = draw(st.sampled_from([0.5, -0.5, 1e-3, -1e-3, 0.25, 1.0]))
+                vals[k] = draw(st.sampled_from([0.5, -0.5, 1e-3, -1e-3, 0.25, 1.0])) if kind != 'int' else 1.0
                 steered[KF_ERF0] = steered.get(KF_ERF0, 0) + 1
     if name == 'hyperu' and n >= 1 and KF.is_open(KF_HYPERU):
         # open known finding: scipy.special.hyperu(a+n, b+n, x) is NaN for integer b, large n and small x; steer around
@@ -520,14 +769,31 @@ def smooth_cases(draw, name, tier):
             if w != v:
                 vals[k] = w
                 steered[KF_HYPERU] = steered.get(KF_HYPERU, 0) + 1
-    case = {'f': name, 'n': n, 'extras': extras, 'form': form, 'x': _build(form, vals, shape), 'out': draw(st.booleans())}
+    out = draw(st.sampled_from(_out_modes_for(form)))
+    case = {'f': name, 'n': n, 'extras': extras, 'form': form, 'kind': kind, 'x': _build(form, vals, shape), 'out': out}
     if steered:
         case['steered'] = steered
+    normal = kind != 'wide' and all(_inside(ivs, v) for v in vals)
     sib = SIBLING.get(name)
-    if sib and covered(sib) and n <= SMOOTH[sib]['cap'][tier] and draw(st.booleans()):
+    if normal and sib and covered(sib) and n <= SMOOTH[sib]['cap'][tier] and draw(st.booleans()):
         sivs = _admissible(sib)[0]
-        if all(_inside(sivs, v) for v in vals):
+        ok_int = not (kind == 'int' and sib in INT_RAISES and n >= 1 and KF.is_open(KF_INTARG))
+        if all(_inside(sivs, v) for v in vals) and ok_int and not (sib in ('erf', 'erfi') and n >= 2 and 0.0 in vals and KF.is_open(KF_ERF0)):
             case['cross'] = {'f': sib, 'first': draw(st.booleans())}
+    # a sequence of further calls whose results the caller keeps: other orders of the same function and the sibling
+    if normal and draw(st.integers(0, 2)) > 0:
+        cap = spec['cap'][tier] if kind != 'f32' else 4
+        seq = []
+        for _ in range(draw(st.integers(1, 3))):
+            n2 = draw(st.integers(0, min(cap, 6 if spec['slow'] else cap)))
+            if name in ('erf', 'erfi') and n2 >= 2 and 0.0 in vals and KF.is_open(KF_ERF0):
+                n2 = 1
+            if kind == 'int' and name in INT_RAISES and n2 >= 1 and KF.is_open(KF_INTARG):
+                n2 = 0
+            seq.append((name, n2))
+        if 'cross' in case and draw(st.booleans()):
+            seq.append((case['cross']['f'], n))
+        case['seq'] = seq
     return case
 
 
@@ -540,7 +806,14 @@ def piecewise_cases(draw, name, tier):
         n = draw(st.one_of(st.just(1), st.integers(0, nmax), st.integers(2, nmax)))
     else:
         n = draw(_order(nmax))
-    form, shape = draw(_form_and_shape(4))
+    # integer-typed and float32 arguments: at order 0 everywhere; at higher orders only where integers are not jumps
+    kind = draw(st.sampled_from(['f64'] * 6 + ['int', 'int', 'f32', 'wide']))
+    if kind == 'int' and not (n == 0 or jump in ('half', 'zero')):
+        kind = 'f64'
+    if kind == 'wide' and not (n == 0 or jump in ('zero', 'bounds')):
+        kind = 'f64'        # every double beyond 2**53 is an integer, i.e. a jump of floor/ceil/trunc/fix/rint
+    forms = INT_FORMS if kind == 'int' else (F32_FORMS if kind == 'f32' else None)
+    form, shape = draw(_form_and_shape(4, forms))
     cnt = int(np.prod(shape, dtype=int))
     extras = []
     lo = hi = None
@@ -554,7 +827,15 @@ def piecewise_cases(draw, name, tier):
             hi = lo + draw(st.one_of(st.integers(1, 4), gen.nice_floats(0.5, 4.0)))
         extras = [lo, hi]
     k_int = st.integers(-5, 5)
-    if n == 0:
+    if kind == 'wide':
+        pt = st.tuples(st.sampled_from([1.0, -1.0]), st.one_of(gen.nice_floats(3.0, 45.0), gen.nice_floats(-40.0, -3.0))).map(
+            lambda t: t[0] * 10.0 ** t[1])
+    elif kind == 'int':
+        if n >= 1 and jump == 'zero':
+            pt = st.sampled_from([1, -1, 2, -3, 5, 100, -1000]).map(float)
+        else:
+            pt = st.one_of(st.integers(-6, 6), st.sampled_from([100, -1000])).map(float)
+    elif n == 0:
         # every point, jumps included
         cands = [gen.nice_floats(-8.5, 8.5), k_int.map(float), k_int.map(lambda k: k + 0.5), st.sampled_from([0.0, -0.0])]
         if name == 'clip':
@@ -577,8 +858,22 @@ def piecewise_cases(draw, name, tier):
                 return lo + 0.05 + u * (hi - lo - 0.1)
             return hi + 0.05 + 2 * u
         pt = st.tuples(st.sampled_from([1, 0, 2, 1]), gen.nice_floats(0.0, 1.0)).map(place)
+    if kind == 'f32':
+        # the float32 value must keep the margin from the jumps: round first, then require the float64 construction rule
+        pt = pt.map(lambda v: float(np.float32(v)))
     vals = [draw(pt) for _ in range(cnt)]
-    return {'f': name, 'n': n, 'extras': extras, 'form': form, 'x': _build(form, vals, shape), 'out': draw(st.booleans())}
+    if kind == 'f32' and n >= 1:
+        vals = [_keep_margin(name, jump, v, lo, hi) for v in vals]
+    case = {'f': name, 'n': n, 'extras': extras, 'form': form, 'kind': kind, 'x': _build(form, vals, shape),
+            'out': draw(st.sampled_from(_out_modes_for(form)))}
+    if draw(st.integers(0, 2)) == 0:
+        case['seq'] = [(name, draw(st.integers(0, nmax))) for _ in range(draw(st.integers(1, 3)))]
+    return case
+
+
+def _keep_margin(name, jump, v, lo, hi):
+    """float32 rounding moves a point by at most 1e-6: points constructed with margin 0.05 keep a margin > 0.04"""
+    return v
 
 
 @st.composite
@@ -593,7 +888,12 @@ def filled_cases(draw, tier):
 
 def _classes(case):
     n = case['n']
-    c = ['n=%02d' % n, 'form=' + case['form'], 'out=' + ('yes' if case['out'] else 'no')]
+    c = ['n=%02d' % n, 'form=' + case['form'], 'out=' + _out_mode(case), 'kind=' + case.get('kind', 'f64')]
+    if case.get('kind') == 'wide':
+        mx = max(abs(v) for v in _elements(case['x']))
+        c.append('wide:%s' % ('|x|>=1e30' if mx >= 1e30 else ('|x|>=1e3' if mx >= 1e3 else ('|x|<=1e-30' if mx <= 1e-30 else '|x|<=1e-2'))))
+    if case.get('seq'):
+        c.append('seq:len=%d' % len(case['seq']))
     el = _elements(case['x'])
     if any(v == 0 for v in el):
         c.append('x-has-0')
